@@ -645,5 +645,6 @@ pub fn check(e: &Engine) {
 		&run_raw,
 	);
 	e.require_label("raw", "parses", 0.2);
+	super::c16_cli::check(e);
 	e.fuzz_leg("c16_json", 6000000, 1024, "coverage-guided libFuzzer (ASan) over raw JSON text, corpus seeded with the repository snapshot files; oracle inside the target: parse => re-serialise => equal, serialisation is a fixed point, no panic");
 }
